@@ -130,6 +130,13 @@ def globals_digest():
     for name, val in sorted(vars(json_ast).items()):
         if isinstance(val, (list, dict, set)) and not name.startswith('__'):
             items.append((name, repr(val)))
+    from dznpy import scoping, ast  # pylint: disable=import-outside-toplevel
+    import dataclasses  # pylint: disable=import-outside-toplevel
+    for mod in (scoping, ast):
+        for name, val in sorted(vars(mod).items()):
+            if not name.startswith('__') and (isinstance(val, (list, dict, set)) or
+                                               (dataclasses.is_dataclass(val) and not isinstance(val, type))):
+                items.append((f'{mod.__name__}.{name}', repr(val)))
     return items
 
 
@@ -171,6 +178,21 @@ def run_history(ops):
                     if ret is not slots[slot]:
                         out.append(('load_file-not-fluent', f'op {i}'))
                     slotdoc[slot] = op[2]
+                elif kind == 'use':
+                    # ordinary use of a result by its owner: qualified names composed from the COMPUTED namespace
+                    # properties with the library's own in-place operator (q = el.parent_ns.fqn; q += el.name.value)
+                    mine = [r for r in returned if r[1] == slot]
+                    if not mine:
+                        continue
+                    res = mine[-1][2]
+                    for cont in ('components', 'interfaces', 'enums', 'externs', 'foreigns', 'subints', 'systems'):
+                        for el in getattr(res, cont):
+                            qual = el.parent_ns.fqn
+                            qual += el.name.value
+                            if hasattr(el, 'ns_trail'):
+                                trail = el.ns_trail.fqn
+                                trail += el.name.value
+                                trail.items.append('member')
                 elif kind == 'process':
                     if slot not in slots:
                         continue   # nothing to process yet: not an operation of this history
@@ -262,6 +284,15 @@ def work(job):
             for tail in itertools.product(single_ops, repeat=depth):
                 hist = [list(o) for o in prefix_ops] + [list(o) for o in tail]
                 _one(hist, part)
+        elif kind == 'use':
+            # two instances; between the parses the owner of a result USES it (composes qualified names in place)
+            use_ops = [['use', 0], ['process', 0], ['new', 1, 1], ['new', 1, 0], ['process', 1], ['use', 1], ['reload', 0, 1],
+                       ['new', 0, 3]]
+            for tail in itertools.product(use_ops, repeat=depth):
+                if ['use', 0] not in [list(o) for o in tail] and ['use', 1] not in [list(o) for o in tail]:
+                    continue
+                hist = [list(o) for o in prefix_ops] + [list(o) for o in tail]
+                _one(hist, part)
         elif kind == 'big':
             # one or two instances, the big document and a small one: every sequence of `depth` operations
             big_ops = [['reload', 0, 4], ['reload', 0, 0], ['process', 0], ['new', 1, 1], ['process', 1], ['reload', 1, 4]]
@@ -334,6 +365,9 @@ def explore(ctx):
     for first in ([['new', 0, 4]], [['new', 0, 0]], [['new', 0, 4], ['process', 0]], [['new', 0, 0], ['process', 0]]):
         for d in (1, 2, 3):
             jobs.append(('big', first, 2, d))
+    for d0 in range(NSWEEP):
+        for d in range(1, 6 if ctx.thorough else 5):
+            jobs.append(('use', [['new', 0, d0], ['process', 0]], 2, d))
     for part in pmap(work, jobs):
         part.states = part.evaluations   # un-pruned: every history is its own state
         ctx.merge(part)
@@ -344,7 +378,9 @@ def explore(ctx):
                 f'length 1..{depth}, each replayed on fresh parser objects (un-pruned); plus a BFS pruned on the '
                 'canonical state (per slot: document, normal form of accumulated contents; class/module globals) '
                 f'to depth {7 if ctx.thorough else 5}; plus, on ONE parser instance, every sequence of load_file(d)/process() of length '
-                f'<= {7 if ctx.thorough else 6} after construction with each document; non-trivial = history contains a process()')
+                f'<= {7 if ctx.thorough else 6} after construction with each document; plus histories in which the owner of a result uses '
+                'it between the parses (qualified names composed in place from the computed namespace properties); '
+                'non-trivial = history contains a process()')
     ctx.bounds = {'slots': nslots, 'documents': 4, 'unpruned_depth': depth,
                   'pruned_depth': 7 if ctx.thorough else 5,
                   'single_instance_depth': 7 if ctx.thorough else 6}
